@@ -340,3 +340,45 @@ def split_conditional_returns(fn: ast.AST) -> ast.AST:
     out = R().visit(root)
     ast.fix_missing_locations(out)
     return out
+
+
+def propagate_pure_flags(fn: ast.AST) -> ast.AST:
+    """a copy of fn in which a local flag `b = <comparison / boolean combination of names and constants>` that is assigned
+    exactly once, at the top level of the function, from names that are not assigned afterwards, is replaced by its
+    definition wherever it is read (same behaviour; lets statement-level rules see what a test asks)"""
+    def pure(e: ast.AST) -> bool:
+        if isinstance(e, (ast.Name, ast.Constant)):
+            return True
+        if isinstance(e, ast.Compare):
+            return pure(e.left) and all(pure(c) for c in e.comparators)
+        if isinstance(e, ast.BoolOp):
+            return all(pure(v) for v in e.values)
+        if isinstance(e, ast.UnaryOp) and isinstance(e.op, ast.Not):
+            return pure(e.operand)
+        return False
+
+    stores: Dict[str, List[ast.AST]] = {}
+    for n in ast.walk(fn):
+        if isinstance(n, ast.Name) and isinstance(n.ctx, (ast.Store, ast.Del)):
+            stores.setdefault(n.id, []).append(n)
+    params = {a.arg for a in ast.walk(fn.args) if isinstance(a, ast.arg)}
+    flags: Dict[str, Tuple[ast.AST, int]] = {}
+    for st in fn.body:
+        if isinstance(st, ast.Assign) and len(st.targets) == 1 and isinstance(st.targets[0], ast.Name) and isinstance(st.value, (ast.Compare, ast.BoolOp, ast.UnaryOp)) \
+                and pure(st.value) and len(stores.get(st.targets[0].id, [])) == 1 and st.targets[0].id not in params:
+            used = {x.id for x in ast.walk(st.value) if isinstance(x, ast.Name)}
+            if all(all(s.lineno < st.lineno for s in stores.get(u, [])) for u in used):
+                flags[st.targets[0].id] = (st.value, st.lineno)
+    if not flags:
+        return fn
+    root = copy.deepcopy(fn)
+
+    class R(ast.NodeTransformer):
+        def visit_Name(self, n: ast.Name):
+            if isinstance(n.ctx, ast.Load) and n.id in flags and n.lineno > flags[n.id][1]:
+                return ast.copy_location(copy.deepcopy(flags[n.id][0]), n)
+            return n
+
+    out = R().visit(root)
+    ast.fix_missing_locations(out)
+    return out
